@@ -42,6 +42,10 @@ def impl_apply(names, via="identifiers"):
                 preproc.apply(idnt, preproc_names=list(names), options={})
             elif via == "keyword":
                 preproc.apply(apret=idnt, identifiers=list(names), options={})
+            elif via == "indentation-tuple":
+                idnt.apply_preprocessing(tuple(names), options={})
+            elif via == "identifiers-tuple":
+                preproc.apply(idnt, tuple(names), options={})
             elif via == "indentation-twice":
                 # the same request repeated on the same curve: the verdict of the second call counts
                 try:
@@ -212,7 +216,8 @@ def run(ctx):
         exp_ok = all(p in steps for p in s) and all(r in s[:i] for i, p in enumerate(s) if p in req
                                                     for r in req[p])
         # every way of handing the list in gives the same verdict
-        for via in ("preproc_names", "keyword", "indentation", "indentation-twice", "fit_model-twice"):
+        for via in ("preproc_names", "keyword", "indentation", "indentation-twice", "fit_model-twice",
+                    "indentation-tuple", "identifiers-tuple"):
             if via == "fit_model-twice" and (exp_ok or len(s) > 2):
                 continue          # (only rejected requests: an accepted one would start a fit)
             if len(s) <= 3 or sum(map(len, s)) % 7 == 0:
